@@ -6,8 +6,8 @@
    raw-quoted / escape-quoted arguments), parenthesised by the documented precedence (not > and > or,
    juxtaposition = and).  parse_grammar / parse_filter: the model of flowfilter.parse (pyparsing grammar). *)
 From Coq Require Import List Bool NArith.
-From MV Require Import Base.Bytes Gen.FlowFilterAtoms Model.FilterGrammar
-  Proofs.FilterGrammarExpr Proofs.FilterGrammarC42.
+From MV Require Import Base.Bytes Gen.FlowFilterAtoms Model.FilterGrammar Model.FilterBody
+  Proofs.FilterGrammarExpr Proofs.FilterGrammarC42 Proofs.FilterBody.
 Import ListNotations.
 
 (* The full statement (every rendering of every tree over table atoms is accepted with the documented meaning)
@@ -72,3 +72,29 @@ Theorem C42_nonvacuous :
      = Ok (And [Or [Not (Atom (AUnary [x71])); Atom (ARex [x75] [x61; x20; x62])]; Atom (AInt [x63] 200%N)]).
 Proof. exact sample_ok. Qed.
 Print Assumptions C42_nonvacuous.
+
+(* Body operators (codes b / bq / bs), for every regex engine [search] and every flow shape: the verdict is the
+   regex search over exactly the bodies that are present -- request body, response body, websocket / TCP / UDP
+   messages of the named direction, DNS message text.  A body that is present and empty is searched; only an
+   absent body (None) is not. *)
+Theorem C42_body_any : forall search f, fbod search f = existsb search (parts_any f).
+Proof. exact fbod_spec. Qed.
+Print Assumptions C42_body_any.
+Theorem C42_body_request : forall search f, fbod_request search f = existsb search (parts_request f).
+Proof. exact fbod_request_spec. Qed.
+Print Assumptions C42_body_request.
+Theorem C42_body_response : forall search f, fbod_response search f = existsb search (parts_response f).
+Proof. exact fbod_response_spec. Qed.
+Print Assumptions C42_body_response.
+Theorem C42_body_empty_request_searched : forall search rs ws, search [] = true ->
+  fbod search (HttpB (Some []) rs ws) = true /\ fbod_request search (HttpB (Some []) rs ws) = true.
+Proof. exact empty_request_body_searched. Qed.
+Print Assumptions C42_body_empty_request_searched.
+Theorem C42_body_empty_response_searched : forall search rq ws, search [] = true ->
+  fbod search (HttpB rq (Some (Some [])) ws) = true /\ fbod_response search (HttpB rq (Some (Some [])) ws) = true.
+Proof. exact empty_response_body_searched. Qed.
+Print Assumptions C42_body_empty_response_searched.
+Theorem C42_body_absent_not_searched : forall search, fbod search (HttpB None (Some None) None) = false
+  /\ fbod_request search (HttpB None (Some None) None) = false /\ fbod_response search (HttpB None (Some None) None) = false.
+Proof. exact absent_bodies_not_searched. Qed.
+Print Assumptions C42_body_absent_not_searched.
